@@ -150,7 +150,8 @@ CONFIGS = [cfg_paraboloid, cfg_folded_paraboloid, cfg_ellipsoid, cfg_cassegrain,
 
 def check_config(ctx, cfg, quick):
     name = cfg['name']
-    case = {'config': name, 'params': cfg['params'], 'desc': cfg['desc']}
+    case = {'config': name, 'params': cfg['params'], 'desc': cfg['desc'],
+            'cfg': {k: cfg[k] for k in ('image', 'real', 'virtual_surface', 'n_obj', 'n_img', 'scale', 'post') if k in cfg}}
     post = cfg.get('post', [])
     if post:
         case['post'] = post
@@ -238,8 +239,8 @@ def run(tier, seed, replay=None):
     per = 30 if quick else 1500
     model_cases = []
     if replay:
-        cfgs = [{'name': replay['config'], 'params': replay['params'], 'desc': replay['desc'],
-                 'image': (0.0, 0.0), 'real': True}]
+        cfgs = [dict(replay.get('cfg', {'image': (0.0, 0.0), 'real': True}), name=replay['config'],
+                     params=replay['params'], desc=replay['desc'])]
     else:
         cfgs = [f(ctx.rng) for f in CONFIGS for _ in range(per)]
         for c in cfgs:
